@@ -109,9 +109,28 @@ func (C10) Explore(x *kernel.Explorer, seed uint64) {
 type yieldTokenStorage struct {
 	common.TokenStorage
 	w *kernel.World
+	// calls counts the store calls of the request in progress (set to zero by the worker before a request)
+	calls *int
+}
+
+// c10CallBudget bounds the store calls of one tokenizer request: a handful are needed, a request that keeps
+// calling the store is a request that does not end (C14: no input or state can exhaust resources).
+const c10CallBudget = 200
+
+var errC10Budget = fmt.Errorf("simulated token store: the request used up its budget of %d store calls", c10CallBudget)
+
+func (y yieldTokenStorage) spent() bool {
+	if y.calls == nil {
+		return false
+	}
+	*y.calls++
+	return *y.calls > c10CallBudget
 }
 
 func (y yieldTokenStorage) Save(id []byte, ctx common.TokenContext, data []byte) error {
+	if y.spent() {
+		return errC10Budget
+	}
 	d := y.w.Seam(y.w.Cur, "tok.Save", fmt.Sprintf("%x", id[:min(4, len(id))]))
 	if d.Kind != "" {
 		return fmt.Errorf("injected token store error")
@@ -120,6 +139,9 @@ func (y yieldTokenStorage) Save(id []byte, ctx common.TokenContext, data []byte)
 }
 
 func (y yieldTokenStorage) Get(id []byte, ctx common.TokenContext) ([]byte, error) {
+	if y.spent() {
+		return nil, errC10Budget
+	}
 	d := y.w.Seam(y.w.Cur, "tok.Get", fmt.Sprintf("%x", id[:min(4, len(id))]))
 	if d.Kind == kernel.FTorn {
 		// the stored record comes back damaged: cut short, a byte flipped, or extended
@@ -280,7 +302,8 @@ func (C10) Run(t *testing.T, plan *kernel.Plan, keepLog bool) *kernel.Result {
 			}
 			inner = m
 		}
-		var store common.TokenStorage = yieldTokenStorage{inner, w}
+		storeCalls := 0
+		var store common.TokenStorage = yieldTokenStorage{inner, w, &storeCalls}
 		clients := []string{"client_alpha", "client-beta"}
 		if plan.Sw("encrypt") == 1 {
 			// the encrypting wrapper needs symmetric keys of both clients
@@ -329,6 +352,7 @@ func (C10) Run(t *testing.T, plan *kernel.Plan, keepLog bool) *kernel.Result {
 					setting := c10Setting{tt: tt, consistent: consistent}
 					site := fmt.Sprintf("%s/%s", storeName, common.TokenType_name[int32(tt)])
 					w.BeginOp(proc, op)
+					storeCalls = 0
 					call := w.Res.Steps
 					firedBefore := totalFired(w)
 					// a stored record that came back damaged (torn) during this operation: without the encrypting
@@ -423,6 +447,22 @@ func (C10) Run(t *testing.T, plan *kernel.Plan, keepLog bool) *kernel.Result {
 								} else if totalFired(w) == firedBefore && (derr != nil || string(back) != is.token) {
 									w.Violate("C10", "disabled-token-is-an-unknown-token", site, fmt.Sprintf("token %q of %s while %s: detokenize gives %q (err=%v), want the token itself", is.token, is.ctx, map[common.TokenAction]string{common.TokenDisable: "disabled", common.TokenRemove: "removed"}[action], back, derr))
 								}
+							}
+							// a value that has a (now unreadable) record is tokenized again during the window: whatever
+							// the answer, the request must end after a few store calls
+							for k, is := range tokens {
+								if k >= 2 || is.tt != tt {
+									continue
+								}
+								storeCalls = 0
+								ictx := common.TokenContext{ClientID: []byte(is.ctx)}
+								_, tpv := Guard(func() error { _, e := dt.Tokenize([]byte(is.value), ictx, setting); return e })
+								if tpv != nil {
+									w.Violate("C10", "no-panic", site+"/tokenize", fmt.Sprint(tpv))
+								} else if storeCalls > c10CallBudget {
+									w.Violate("C14", "request-ends", site+"/tokenize-during-window", fmt.Sprintf("tokenizing %q again while its record is %s took more than %d store calls and was cut off", is.value, map[common.TokenAction]string{common.TokenDisable: "disabled", common.TokenRemove: "removed"}[action], c10CallBudget))
+								}
+								storeCalls = 0
 							}
 							w.Probe("maintenance-window")
 						}
